@@ -10,6 +10,7 @@ package c09
 import (
 	"context"
 	"fmt"
+	"os"
 	"sort"
 	"strings"
 	"sync"
@@ -48,6 +49,19 @@ type in struct {
 	Arg  string // set / patchset: value
 	D    int64  // inc / patchinc: delta
 	Cond *cond
+	// Create: patch with CreateIfNotExist and the seed {n:0,s:"seed"} (kind docdel)
+	Create bool
+}
+
+// valueKind maps a key kind to the representation of its value.
+func valueKind(kind string) string {
+	switch kind {
+	case "str", "strdel":
+		return "str"
+	case "int", "intdel":
+		return "int"
+	}
+	return "doc"
 }
 
 type cond struct {
@@ -120,8 +134,8 @@ func step(state, input, output any) (bool, any) {
 		if !o.Exists {
 			return false, s
 		}
-		switch i.Kind {
-		case "str", "strdel":
+		switch valueKind(i.Kind) {
+		case "str":
 			return o.S == s.S, s
 		case "int":
 			return o.N == s.N, s
@@ -140,33 +154,41 @@ func step(state, input, output any) (bool, any) {
 		if !s.Exists {
 			return !o.Exists, s
 		}
-		return o.Exists && o.S == s.S, st{}
+		switch valueKind(i.Kind) {
+		case "str":
+			return o.Exists && o.S == s.S, st{}
+		case "int":
+			return o.Exists && o.N == s.N, st{}
+		}
+		return o.Exists && o.S == s.S && o.N == s.N, st{}
 	case "inc":
+		// an absent key counts from 0 (swamp.IncrementInt64: void content -> 0); a failed condition
+		// on an absent key leaves it absent
+		base := s
 		if !s.Exists {
-			return false, s // int keys are created before the concurrent phase and never deleted
+			base = st{}
 		}
-		if !condHolds(i.Cond, s.N) {
-			return !o.Inc && o.N == s.N, s
+		if !condHolds(i.Cond, base.N) {
+			return !o.Inc && o.N == base.N, s
 		}
-		return o.Inc && o.N == s.N+i.D, st{Exists: true, N: s.N + i.D}
-	case "patchinc":
+		return o.Inc && o.N == base.N+i.D, st{Exists: true, N: base.N + i.D}
+	case "patchinc", "patchset":
+		base, okStatus := s, "PATCHED"
 		if !s.Exists {
-			return o.Status == "KEY_NOT_FOUND", s
+			if !i.Create {
+				return o.Status == "KEY_NOT_FOUND", s
+			}
+			// CreateIfNotExist: the seed is patched (condition evaluated against the seed)
+			base, okStatus = st{Exists: true, S: "seed", N: 0}, "CREATED"
 		}
-		if !condHolds(i.Cond, s.N) {
+		if !condHolds(i.Cond, base.N) {
 			return o.Status == "CONDITION_NOT_MET", s
 		}
-		ns := st{Exists: true, S: s.S, N: s.N + i.D}
-		return o.Status == "PATCHED" && (!o.HasN || (o.N == ns.N && o.S == ns.S)), ns
-	case "patchset":
-		if !s.Exists {
-			return o.Status == "KEY_NOT_FOUND", s
+		ns := st{Exists: true, S: base.S, N: base.N + i.D}
+		if i.Op == "patchset" {
+			ns = st{Exists: true, S: i.Arg, N: base.N}
 		}
-		if !condHolds(i.Cond, s.N) {
-			return o.Status == "CONDITION_NOT_MET", s
-		}
-		ns := st{Exists: true, S: i.Arg, N: s.N}
-		return o.Status == "PATCHED" && (!o.HasN || (o.N == ns.N && o.S == ns.S)), ns
+		return o.Status == okStatus && (!o.HasN || (o.N == ns.N && o.S == ns.S)), ns
 	}
 	return false, s
 }
@@ -282,8 +304,8 @@ func exec(r *rig.Rig, sw string, i in) (o out) {
 				continue
 			}
 			o.Exists = true
-			switch i.Kind {
-			case "str", "strdel":
+			switch valueKind(i.Kind) {
+			case "str":
 				o.S = t.GetStringVal()
 			case "int":
 				o.N = t.GetInt64Val()
@@ -311,7 +333,18 @@ func exec(r *rig.Rig, sw string, i in) (o out) {
 		for _, t := range resp.Treasures {
 			if t.Key == i.Key {
 				o.Exists = true
-				o.S = t.GetStringVal()
+				switch valueKind(i.Kind) {
+				case "str":
+					o.S = t.GetStringVal()
+				case "int":
+					o.N = t.GetInt64Val()
+				default:
+					n, s, ok := decodeDoc(t.GetBytesVal())
+					if !ok {
+						return out{Err: fmt.Sprintf("shift: undecodable body %x", t.GetBytesVal())}
+					}
+					o.N, o.S = n, s
+				}
 			}
 		}
 		return o
@@ -330,8 +363,13 @@ func exec(r *rig.Rig, sw string, i in) (o out) {
 		if i.Op == "patchset" {
 			op = &hydrapb.PatchOp{Op: hydrapb.PatchOp_SET, Path: "s", Value: mp(i.Arg)}
 		}
-		resp, err := r.GW.PatchTreasures(ctx, &hydrapb.PatchTreasuresRequest{IslandID: isl, SwampName: sw,
-			Patches: []*hydrapb.TreasurePatch{{Key: i.Key, Ops: []*hydrapb.PatchOp{op}, Condition: pbCond(i.Cond)}}})
+		preq := &hydrapb.PatchTreasuresRequest{IslandID: isl, SwampName: sw,
+			Patches: []*hydrapb.TreasurePatch{{Key: i.Key, Ops: []*hydrapb.PatchOp{op}, Condition: pbCond(i.Cond)}}}
+		if i.Create {
+			preq.CreateIfNotExist = true
+			preq.InitialMsgpackOnCreate = mp(map[string]any{"n": int64(0), "s": "seed"})
+		}
+		resp, err := r.GW.PatchTreasures(ctx, preq)
 		if err != nil || resp == nil || len(resp.Results) != 1 {
 			return out{Err: fmt.Sprint("patch: ", err, resp)}
 		}
@@ -361,10 +399,21 @@ func runHistory(c *rig.Check, r *rig.Rig, cf cfg, idx int) {
 	if relax["small"] {
 		nkeys = 1
 	}
+	// intdel / docdel: a counter / document key with ONE writing client (increments, creating
+	// patches) while all other clients read, delete and shift it: the removal of a record races
+	// with a writer that looked the record up before. Only where every acknowledged record has
+	// reached the storage file (immediate write mode): elsewhere a removed record keeps its
+	// content and the stale writer continues from it (root cause of known finding C09-F1).
 	kinds := []string{"str", "strdel", "int", "doc"}
+	if cf.Write == 0 && !cf.InMem {
+		kinds = append(kinds, "intdel", "docdel")
+	}
+	if only := os.Getenv("C09_ONLY"); only != "" && len(kinds) > 4 { // diagnostic runs
+		kinds = []string{only}
+	}
 	var keys []keyDef
 	for k := 0; k < nkeys; k++ {
-		keys = append(keys, keyDef{Key: fmt.Sprintf("k%d", k), Kind: kinds[rnd.IntN(4)]})
+		keys = append(keys, keyDef{Key: fmt.Sprintf("k%d", k), Kind: kinds[rnd.IntN(len(kinds))]})
 		if relax["small"] {
 			keys[k].Kind = "strdel"
 		}
@@ -429,7 +478,9 @@ func runHistory(c *rig.Check, r *rig.Rig, cf cfg, idx int) {
 	seq := 0
 	for cl := range plans {
 		for q := 0; q < nreq; q++ {
-			k := keys[rnd.IntN(len(keys))]
+			ki := rnd.IntN(len(keys))
+			k := keys[ki]
+			isWriter := cl == (ki+idx)%nclients
 			seq++
 			i := in{Key: k.Key, Kind: k.Kind}
 			var cnd *cond
@@ -463,6 +514,22 @@ func runHistory(c *rig.Check, r *rig.Rig, cf cfg, idx int) {
 					if rnd.IntN(5) == 0 {
 						i.D = -i.D
 					}
+				}
+			case "intdel", "docdel":
+				x := rnd.IntN(10)
+				switch {
+				case isWriter && x < 8 && k.Kind == "intdel":
+					i.Op, i.D, i.Cond = "inc", int64(1+rnd.IntN(3)), cnd
+				case isWriter && x < 5:
+					i.Op, i.D, i.Cond, i.Create = "patchinc", int64(1+rnd.IntN(3)), cnd, true
+				case isWriter && x < 8:
+					i.Op, i.Arg, i.Cond, i.Create = "patchset", fmt.Sprintf("c%d#%d", cl, seq), cnd, true
+				case x < 4 || isWriter:
+					i.Op = "get"
+				case x < 8:
+					i.Op = "del"
+				default:
+					i.Op = "shift"
 				}
 			default:
 				switch x := rnd.IntN(10); {
@@ -583,7 +650,8 @@ func runHistory(c *rig.Check, r *rig.Rig, cf cfg, idx int) {
 				for _, op := range l {
 					kindsBad[op.Input.(in).Kind] = true
 					opsUsed[op.Input.(in).Op] = true
-					if len(lines) < 80 {
+					// the operations around the first one that cannot be placed
+					if len(lines) < 100 && (len(stuck) == 0 || op.Return >= stuck[0].Call-4_000_000) {
 						lines = append(lines, fmt.Sprintf("[%d..%d] c%d %s", op.Call, op.Return, op.ClientId, model.DescribeOperation(op.Input, op.Output)))
 					}
 				}
@@ -632,7 +700,8 @@ func TestCheck(t *testing.T) {
 	defer c.Finish()
 	c.Rule = "a case is one short concurrent history (4-8 client goroutines x 30-60 requests on 1-3 keys of one swamp, key kinds string / int64 counter / msgpack document) recorded at the client boundary and checked per key with porcupine against a sequential model; final sequential reads are part of the history; non-trivial = at least two operations on the same key overlapped in real time; distinct = distinct (configuration, history index)"
 	c.Assumptions = []string{
-		"counter and document keys are created before the concurrent phase and never deleted (conditional increments on absent keys are unspecified in the documentation); string keys are set, read, deleted and shifted concurrently",
+		"counter (int) and document (doc) keys are created before the concurrent phase and never deleted; string keys are set, read, deleted and shifted concurrently",
+		"intdel / docdel keys (immediate write mode only): one client increments / patches with CreateIfNotExist while all others read, delete and shift the key; an absent counter counts from 0 and a failed condition leaves it absent (swamp.IncrementInt64), a creating patch patches the seed. With several writers, or where removed records keep their content (buffered and in-memory swamps), the stale-object defect of known finding C09-F1 applies and would hide every other cause",
 		"a sentinel key keeps the swamp from becoming empty (auto-destroy is C16's subject)",
 		"an error reply is required to have had no effect",
 		"schedules are whatever the Go scheduler and the race detector's slowdown produce on this machine; no interleaving is forced",
